@@ -32,7 +32,7 @@ type Verdict struct {
 	Class  string
 	Detail string
 	// BadRegs are all mismatching registers, BadLines the 64-byte lines that
-	// contain a mismatching memory byte (at most 64 are listed; BadMany if more).
+	// contain a mismatching memory byte (at most 1024 are listed; BadMany if more).
 	BadRegs  []isa.Reg
 	BadLines []int32
 	BadMany  bool
@@ -91,7 +91,7 @@ func Compare(ref *isa.Result, out *mach.Outcome) Verdict {
 			}
 			if l := int32(i) >> 6; l != last {
 				last = l
-				if len(v.BadLines) < 64 {
+				if len(v.BadLines) < 1024 {
 					v.BadLines = append(v.BadLines, l)
 				} else {
 					v.BadMany = true
